@@ -14,7 +14,7 @@ not have the expected shape, raises ExtractError.
 """
 import re
 
-from extract import src, strip_comments, write, ExtractError, lean_list, fn_body
+from extract import src, strip_comments, write, ExtractError, lean_list, fn_body, expr_def
 
 
 # control-flow fingerprints of the functions the Lean model mirrors by hand (picked up by
@@ -145,25 +145,23 @@ _SIGMAS = {
 
 
 def _sigmas(fname, text):
+    """rotation / shift amounts of the four sigma functions, written as macros or as static inline
+    functions"""
     out = {}
-    for name in ("Sigma0", "Sigma1"):
-        m = re.search(r"#\s*define\s+%s\(x\)\s*\(S\(x,\s*(\d+)\)\s*\^\s*S\(x,\s*(\d+)\)\s*\^\s*S\(x,\s*(\d+)\)\)" % name, text)
+    for name, last in (("Sigma0", "S"), ("Sigma1", "S"), ("Gamma0", "R"), ("Gamma1", "R")):
+        d = expr_def(text, name)
+        m = d and d[0] == ["x"] and re.fullmatch(r"S\(x,(\d+)\)\^S\(x,(\d+)\)\^%s\(x,(\d+)\)" % last, d[1])
         if not m:
-            raise ExtractError("%s: macro %s not found" % (fname, name))
-        out[name] = tuple(int(g) for g in m.groups())
-    for name in ("Gamma0", "Gamma1"):
-        m = re.search(r"#\s*define\s+%s\(x\)\s*\(S\(x,\s*(\d+)\)\s*\^\s*S\(x,\s*(\d+)\)\s*\^\s*R\(x,\s*(\d+)\)\)" % name, text)
-        if not m:
-            raise ExtractError("%s: macro %s not found" % (fname, name))
+            raise ExtractError("%s: %s not found (macro or static inline function)" % (fname, name))
         out[name] = tuple(int(g) for g in m.groups())
     return out
 
 
 def _sha2_common(fname, text, compress, nrounds):
-    if not re.search(r"#\s*define\s+Ch\(x,\s*y,\s*z\)\s*\(z\s*\^\s*\(x\s*&\s*\(y\s*\^\s*z\)\)\)", text):
-        raise ExtractError(fname + ": macro Ch changed")
-    if not re.search(r"#\s*define\s+Maj\(x,\s*y,\s*z\)\s*\(\(\(x\s*\|\s*y\)\s*&\s*z\)\s*\|\s*\(x\s*&\s*y\)\)", text):
-        raise ExtractError(fname + ": macro Maj changed")
+    if expr_def(text, "Ch") != (["x", "y", "z"], "z^(x&(y^z))"):
+        raise ExtractError(fname + ": Ch changed")
+    if expr_def(text, "Maj") != (["x", "y", "z"], "((x|y)&z)|(x&y)"):
+        raise ExtractError(fname + ": Maj changed")
     body = fn_body(text, compress)
     b = re.sub(r"\s+", "", body)
     if ("W[i]=Gamma1(W[i-2])+W[i-7]+Gamma0(W[i-15])+W[i-16];" not in b
@@ -233,16 +231,10 @@ def _md5():
     for i in (0, 1):
         if not re.search(r"bits\s*\[\s*%d\s*\]\s*=\s*0\s*;" % i, init):
             raise ExtractError("MD5Init: bits[%d] = 0 not found" % i)
-    funs = {
-        "F1": r"\(z\^\(x&\(y\^z\)\)\)",
-        "F2": r"F1\(z,x,y\)",
-        "F3": r"\(x\^y\^z\)",
-        "F4": r"\(y\^\(x\|~z\)\)",
-    }
+    funs = {"F1": "z^(x&(y^z))", "F2": "F1(z,x,y)", "F3": "x^y^z", "F4": "y^(x|~z)"}
     for name, shape in funs.items():
-        m = re.search(r"#\s*define\s+%s\(x,\s*y,\s*z\)\s*([^\n]+)" % name, text)
-        if not m or not re.fullmatch(shape, re.sub(r"\s+", "", m.group(1))):
-            raise ExtractError("md5.c: macro %s changed" % name)
+        if expr_def(text, name) != (["x", "y", "z"], shape):
+            raise ExtractError("md5.c: %s changed" % name)
     m = re.search(r"#\s*define\s+MD5STEP\(f,\s*w,\s*x,\s*y,\s*z,\s*data,\s*s\)((?:[^\n]*\\\n)*[^\n]*)", text)
     if not m or re.sub(r"[\s\\]+", "", m.group(1)) != "(w+=f(x,y,z)+data,w=w<<s|w>>(32-s),w+=x)":
         raise ExtractError("md5.c: macro MD5STEP changed")
